@@ -1,8 +1,12 @@
+import SignaloModel.Proofs.BridgeSimple
 import SignaloModel.Proofs.DiffIntVarProofs
 /-!
 # C15 — Differentiate = first difference, integrate = running sum, mutually inverse
 
-Property theorems for C15 (statements are printed by `#check`, axioms by `#print axioms`;
+Property theorems for C15 (statements are printed by `#check`, axioms by `#check @Registry.diff_spec
+#check @Registry.diff_state
+#check @Registry.int_state
+#print axioms`;
 `bin/check C15` re-elaborates this file on every run and audits the axiom lists).
 -/
 open SignaloModel
@@ -12,3 +16,6 @@ open SignaloModel
 
 #print axioms DIV.int_diff
 #print axioms DIV.diff_int
+#print axioms Registry.diff_spec
+#print axioms Registry.diff_state
+#print axioms Registry.int_state
